@@ -28,7 +28,10 @@ def value_for(vr):
     if vr == 'UI':
         return uid_text
     if vr == 'US':
-        return ints(0xFFFF)
+        # also values that MEAN something elsewhere in the protocol (status codes, command field codes, the
+        # 'no data set' code, priorities): in a message id or a status they are just numbers
+        return st.one_of(ints(0xFFFF), st.sampled_from([0x0101, 0x0001, 0x0002, 0x0030, 0x8030, 0x0020, 0x8020, 0x0FFF,
+                                                        0xFE00, 0xFF00, 0xFF01, 0xB000, 0xA700, 0xC000, 0x0100, 0x0800]))
     if vr == 'AE':
         return ae_text
     if vr == 'AT':
@@ -53,9 +56,28 @@ def fields_for(draw, cf, all_set=False):
     return out
 
 
+def magic_payloads():
+    """Data-set byte strings whose CONTENT looks like something else the library knows: a whole Part-10 file image, a
+    'DICM' prefix at offset 128 or 0, a file meta group, a command group, a P-DATA-TF header.  To the DIMSE layer a
+    data set is opaque bytes."""
+    import struct
+    meta = (b'\x02\x00\x00\x00UL\x04\x00' + struct.pack('<I', 28) +
+            b'\x02\x00\x10\x00UI\x14\x00' + b'1.2.840.10008.1.2.1\x00')
+    body = b'\x08\x00\x18\x00UI\x08\x001.2.3.4\x00' + b'\x10\x00\x10\x00PN\x06\x00DICM^X'
+    return [b'\x00' * 128 + b'DICM' + meta + body,
+            b'\x41' * 128 + b'DICM' + body * 3,
+            b'DICM' + body,
+            meta + body,
+            b'\x00\x00\x00\x00\x04\x00\x00\x00\x38\x00\x00\x00' + body,
+            b'\x04\x00\x00\x00\x00\x10' + body,
+            (b'\x08\x00\x08\x00CS\x7c\x00' + b'ORIGINAL\\PRIMARY'.ljust(124, b' ')) + b'DICM' + body]
+
+
 @st.composite
 def data_bytes(draw, max_len=400):
-    mode = draw(st.integers(0, 3))
+    mode = draw(st.integers(0, 4))
+    if mode == 4:
+        return draw(st.sampled_from(magic_payloads()))
     if mode == 0:
         return draw(st.sampled_from([None, None, b'']))     # b'' = an empty identifier (encodes to zero bytes)
     n = draw(st.integers(1, max_len))
